@@ -100,6 +100,19 @@ def run(rep, tier, root=None):
     rets = I.returns(f, [phase, nb, step])
     stores = [s for s in I.store_log if s[0] == f.fq]
     loops = [l for l in I.loop_log if l[0] == f.fq]
+    # the same estimator written as one slice fill from a comprehension:  sf[a:] = [g(c) for c in range(lo, hi, st)]
+    # is the loop  for c in range(lo, hi, st): sf[a + (c - lo)/st] = g(c)
+    if len(rets) == 1 and len(stores) == 1 and not loops and isinstance(stores[0][3], Rat) and isinstance(stores[0][3].single_atom(), Fn) \
+            and stores[0][3].single_atom().name == "listcomp" and isinstance(stores[0][2], tuple) and len(stores[0][2]) == 4 \
+            and stores[0][2][0] == "slice" and stores[0][2][3] is None and isinstance(stores[0][2][1], Rat) and stores[0][5] == "=":
+        lc = stores[0][3].single_atom()
+        key = lc.args[2]
+        if isinstance(lc.args[0], Rat) and isinstance(key, tuple) and len(key) == 3 and all(isinstance(x, Rat) for x in key) and \
+                (stores[0][2][2] is None):
+            cvar = Rat.atom(Sym(lc.args[1], ("int", "loopvar")))
+            st0 = stores[0]
+            stores = [(st0[0], st0[1], stores[0][2][1] + (cvar - key[0]) / key[2], lc.args[0], st0[4], st0[5], st0[6])]
+            loops = [(f.fq, st0[4], cvar, RangeVal(key[0], key[1], key[2]))]
     if len(rets) != 1 or len(stores) != 1 or len(loops) != 1:
         rep.unknown("T1.lag-definition", f.fq, "expected one return path, one lag loop and one store; found %d/%d/%d"
                     % (len(rets), len(loops), len(stores)), f.where())
@@ -187,7 +200,7 @@ def run(rep, tier, root=None):
         rep.unknown("T5.frequency-axis", h.fq, "expected one path", h.where())
     else:
         want = IO.returns(ix.func(om.name, "time_axis"), [fr, nfr])[0][1]
-        r3 = [(r3[0][0], _floordiv_as_int(r3[0][1]))]
+        r3 = [(r3[0][0], _half_of_rfftfreq(_floordiv_as_int(r3[0][1]), nfr))]
         check_equal(rep, "T5.frequency-axis", h.fq + " == fftfreq(n, 1/rate)[:n/2]", r3[0][1], want, h.where(), what="frequency axis")
         # same truncation in spectrum and axis
         if len(r2) == 1 and isinstance(r2[0][1], tuple):
@@ -204,6 +217,21 @@ def run(rep, tier, root=None):
     purity_obligations(rep, ix, [ix.func(SC, "calculate_structure_function"), ix.func(TP, "calc_slope_temporalps"), ix.func(TP, "get_tps_time_axis")],
                        "T6.pure", "the estimate would depend on earlier calls or change the data it is computed from")
     rep.floor("C19 obligations", len(rep.obligations), 9)
+
+
+def _half_of_rfftfreq(v, n):
+    """rfftfreq(n, d)[k] and fftfreq(n, d)[k] are both k/(n d) for k < n/2 (NumPy documentation: the non-negative half comes
+    first in both): a slice of rfftfreq that stops at or before n/2 is the same slice of fftfreq"""
+    def f(a):
+        if isinstance(a, Fn) and a.name == "getitem" and isinstance(a.args[0], Rat) and isinstance(a.args[1], tuple) and len(a.args[1]) == 4 \
+                and a.args[1][0] == "slice" and a.args[1][3] is None and isinstance(a.args[1][1], Rat) and a.args[1][1].is_zero():
+            b = a.args[0].single_atom()
+            hi = a.args[1][2]
+            half = [Rat.atom(Fn("int", (n / 2,))), n / 2, Rat.atom(Fn("floordiv", (n, Rat.const(2))))]
+            if isinstance(b, Fn) and b.name == "rfftfreq" and same_value(b.args[0], n) and isinstance(hi, Rat) and any(same_value(hi, h_) for h_ in half):
+                return Rat.atom(Fn("getitem", (Rat.atom(Fn("fftfreq", b.args)), a.args[1])))
+        return None
+    return v.subst(f) if isinstance(v, Rat) else v
 
 
 def _floordiv_as_int(v):
